@@ -1196,6 +1196,33 @@ pub mod lockorder_bad {
     }
 }
 
+// ---------------------------------------------------------------- R-ORDER.drop
+pub mod dropwrite {
+    pub struct OkFile {
+        pub path: String,
+        pub data: Vec<u8>,
+    }
+    pub struct BadFile {
+        pub path: String,
+        pub data: Vec<u8>,
+    }
+    impl Drop for OkFile {
+        fn drop(&mut self) {
+            self.data.clear();
+        }
+    }
+    impl BadFile {
+        fn persist(&self) {
+            let _ = std::fs::write(&self.path, &self.data);
+        }
+    }
+    impl Drop for BadFile {
+        fn drop(&mut self) {
+            self.persist();
+        }
+    }
+}
+
 // ---------------------------------------------------------------- R-VARIANT
 pub mod variant {
     pub enum Storage {
